@@ -1736,6 +1736,12 @@ int32 matrixCreateSessionTicket(ssl_t *ssl, unsigned char *out, int32 *outLen)
     psLockMutex(&g_sessTicketLock);
     /* Ticket itself */
     keys = ssl->keys->sessTickets;
+    if (keys == NULL)
+    {
+        /* The last key was deleted after the hello extension was parsed */
+        rc = PS_FAILURE;
+        goto ERR_LOCKED;
+    }
     /* name */
     Memcpy(c, keys->name, 16);
     c += 16;
